@@ -374,6 +374,11 @@ fn run_scenario(rep: &mut Report, sc: &mut Scenario, seed: u64, mode: &str, focu
     for fc in sc.fns.iter_mut() {
         let d = fc.d;
         if d.scope_thread {
+            // one call on the main thread: whatever first-use initialisation the expansion
+            // performs (none is expected for thread scope) happens outside the scheduled phase
+            vhooks::disarm_exec();
+            let _ = (d.call)(fc.slots[0]);
+            vhooks::take_log();
             continue;
         }
         cachelito_core::invalidate_with(d.reg_name, |_| true);
